@@ -144,6 +144,21 @@ def builder_inserts(prog, b):
                 esc = [f for f in prog.lib_funcs() if f.name == en]
                 if len(esc) == 1 and is_escaper(prog, esc[0]):
                     ok, why = True, '%s is the result of the quoting helper %s()' % (sa.op, en)
+                    es = escaped_set(prog, esc[0])
+                    if es is not None:
+                        missing = sorted(ERE_SPECIAL - es)
+                        extra = sorted(es & GNU_OPERATOR_AFTER_BACKSLASH)
+                        if missing:
+                            ok, why = False, '%s() does not escape %s, which are special in an extended regular expression' % (
+                                en, ' '.join(repr(chr(c)) for c in missing))
+                        elif extra:
+                            ok, why = False, ('%s() also puts a backslash in front of %s (%d characters): there the '
+                                              'backslash makes an operator (\\\' end of buffer, \\< \\> word '
+                                              'boundaries, \\w \\b \\1 ...), not the character' % (
+                                                  en, ' '.join(repr(chr(c)) for c in extra[:8]), len(extra)))
+                        else:
+                            why += ', which escapes exactly the special characters %s' % ''.join(
+                                chr(c) for c in sorted(es & ERE_SPECIAL))
             res.append((ok, why, a, fc))
     return res
 
@@ -324,8 +339,120 @@ def check_pattern_injection(ck, prog, config, clause):
                 sa = strip(a)
                 ck.ob(clause, 'R7.pattern-injection', b.name, 'insert:%s->%s' % ((sa.op or show(a))[:30], field), ok,
                       'pattern for %s: %s' % (field, why) if ok else
-                      '%s() pastes %s into the regular expression compiled for %s without quoting it: a boundary '
-                      'that is legal in multipart/byteranges (RFC 2046 allows ( ) + ? . and others) changes the '
-                      'pattern, so a well-formed response is not recognised, or groups become optional' % (
-                          b.name, show(a), field), fc.file, fc.line, config=config)
+                      ('%s() pastes %s into the regular expression compiled for %s without quoting it: a boundary '
+                       'that is legal in multipart/byteranges (RFC 2046 allows ( ) + ? . and others) changes the '
+                       'pattern, so a well-formed response is not recognised, or groups become optional' % (
+                           b.name, show(a), field) if why.startswith('inserted text') else
+                       'pattern for %s: %s - a boundary with such a character (RFC 2046 allows \' ( ) + _ , - . / : = ?) '
+                       'gives a pattern that does not match the response\'s own delimiter' % (field, why)),
+                      fc.file, fc.line, config=config)
     return n
+
+
+# ------------------------------------------------------------------ the set of characters a quoting helper escapes
+ERE_SPECIAL = set(ord(c) for c in '\\^$.[]|()*+?{}')
+# a backslash in front of these is an operator of the POSIX/GNU regex syntax, not the character itself
+GNU_OPERATOR_AFTER_BACKSLASH = set(range(ord('0'), ord('9') + 1)) | set(range(ord('a'), ord('z') + 1)) | \
+    set(range(ord('A'), ord('Z') + 1)) | set(ord(c) for c in "'`<>")
+
+CTYPE = {
+    'isalnum': lambda v: chr(v).isalnum() and v < 128, 'isalpha': lambda v: chr(v).isalpha() and v < 128,
+    'isdigit': lambda v: 48 <= v <= 57, 'isupper': lambda v: 65 <= v <= 90, 'islower': lambda v: 97 <= v <= 122,
+    'isxdigit': lambda v: chr(v) in '0123456789abcdefABCDEF', 'isspace': lambda v: v in (9, 10, 11, 12, 13, 32),
+    'ispunct': lambda v: 33 <= v <= 126 and not (chr(v).isalnum()), 'isprint': lambda v: 32 <= v <= 126,
+    'isgraph': lambda v: 33 <= v <= 126, 'iscntrl': lambda v: v < 32 or v == 127,
+}
+
+
+def escaped_set(prog, f):
+    """Characters in front of which the quoting helper f stores a backslash: the guard of the backslash store is
+    evaluated for every byte value 1..255 (finite domain, no execution): supported are the current character (a
+    deref / subscript of a char pointer or a char local), character constants, comparisons, && || !, strchr() on a
+    string literal and the <ctype.h> predicates.  Anything else is analysis-broken."""
+    from ..ir import walk_stmts
+    from ..frontend import AnalysisBroken
+    guards = []
+
+    def visit(stmts, conds):
+        for s in (stmts if isinstance(stmts, list) else [stmts]):
+            if s is None:
+                continue
+            if s.k == 'compound':
+                visit(s.body, conds)
+            elif s.k == 'if':
+                visit(s.then, conds + [(s.e, True)])
+                if s.els is not None:
+                    visit(s.els, conds + [(s.e, False)])
+            elif s.k in ('for', 'while', 'do'):
+                visit(s.body, conds)
+            elif s.k == 'expr' and s.e is not None:
+                for n in walk(s.e):
+                    if n.k == 'bin' and n.op == '=' and const_value(n.a[1]) == 92:
+                        guards.append(list(conds))
+    visit(f.body, [])
+    if not guards:
+        return None
+
+    def ev(e, v):
+        e = strip(e)
+        while e is not None and e.k == 'cast' and e.a:
+            e = strip(e.a[0])
+        cv = const_value(e)
+        if cv is not None:
+            return cv
+        if e.k == 'null':
+            return 0
+        if e.k in ('var',) and not (e.t or '').rstrip().endswith('*'):
+            return v
+        if (e.k == 'un' and e.op == '*') or e.k == 'idx':
+            return v                      # the character under the cursor
+        if e.k == 'un' and e.op == '!':
+            return 0 if ev(e.a[0], v) else 1
+        if e.k == 'bin' and e.op == '&':
+            # glibc's <ctype.h> macros: (*__ctype_b_loc())[(int)(c)] & _ISxxx
+            for tab, mask in ((e.a[0], e.a[1]), (e.a[1], e.a[0])):
+                st = strip(tab)
+                while st is not None and st.k == 'cast' and st.a:
+                    st = strip(st.a[0])
+                m = const_value(mask)
+                if m is None:
+                    mk = strip(mask)
+                    while mk is not None and mk.k == 'cast' and mk.a:
+                        mk = strip(mk.a[0])
+                    if mk is not None and mk.k == 'var' and (mk.op or '').startswith('_IS'):
+                        m = {'_ISupper': 256, '_ISlower': 512, '_ISalpha': 1024, '_ISdigit': 2048, '_ISxdigit': 4096,
+                             '_ISspace': 8192, '_ISprint': 16384, '_ISgraph': 32768, '_IScntrl': 2, '_ISpunct': 4,
+                             '_ISalnum': 8}.get(mk.op)
+                if st is not None and st.k == 'idx' and m is not None and any(
+                        x.k == 'call' and callee_name(x) == '__ctype_b_loc' for x in walk(st.a[0])):
+                    ch = ev(st.a[1], v)
+                    bits = {256: 'isupper', 512: 'islower', 1024: 'isalpha', 2048: 'isdigit', 4096: 'isxdigit',
+                            8192: 'isspace', 16384: 'isprint', 32768: 'isgraph', 2: 'iscntrl', 4: 'ispunct', 8: 'isalnum'}
+                    if m in bits:
+                        return 1 if CTYPE[bits[m]](ch) else 0
+        if e.k == 'bin':
+            if e.op == '&&':
+                return 1 if (ev(e.a[0], v) and ev(e.a[1], v)) else 0
+            if e.op == '||':
+                return 1 if (ev(e.a[0], v) or ev(e.a[1], v)) else 0
+            a, b = ev(e.a[0], v), ev(e.a[1], v)
+            ops = {'==': a == b, '!=': a != b, '<': a < b, '<=': a <= b, '>': a > b, '>=': a >= b}
+            if e.op in ops:
+                return 1 if ops[e.op] else 0
+        if e.k == 'call':
+            n = callee_name(e)
+            if n in ('strchr', 'index', '__builtin_strchr') and strip(e.a[1]).k == 'str':
+                lit = strip(e.a[1]).val or ''
+                lit = lit[1:-1] if len(lit) >= 2 and lit[0] == '"' else lit
+                lit = lit.encode().decode('unicode_escape') if '\\' in lit else lit
+                return 1 if chr(ev(e.a[2], v)) in lit else 0
+            if n in CTYPE:
+                return 1 if CTYPE[n](ev(e.a[1], v)) else 0
+        raise AnalysisBroken('%s: guard of the backslash store uses a form the finite evaluation does not know: %s' % (
+            f.name, show(e)[:60]))
+    out = set()
+    for v in range(1, 256):
+        for conds in guards:
+            if all(bool(ev(c, v)) == want for c, want in conds):
+                out.add(v)
+    return out
